@@ -207,6 +207,41 @@ class Gen:
         return name, kind, opcode
 
 
+SHAPES = {"small": ["u8 {a};"], "large": ["u64 {a};", "u32 {b};"], "string": ["CString {a};"], "packed": ["PackedGuid {a};", "u8 {b};"], "empty": []}
+
+
+def systematic(rng, start_index):
+    """size-shape programs: every combination of (if arm, else-if arm?, else arm) shapes — fixed small, fixed large, variable string,
+    packed guid, empty — over `==` and `!=`, so that every way of combining branch minima / maxima occurs"""
+    text, msgs = [], []
+    names = set()
+    idx = start_index
+    shapes = list(SHAPES)
+    for op in ("==", "!="):
+        for a in shapes:
+            for b in shapes:
+                if a == "empty" and b == "empty":
+                    continue
+                g = Gen(rng, idx)
+                g.names = names
+                en, ty, ens = g.enum()
+                v = g.name()
+
+                def arm(sh):
+                    return "".join("        " + l.format(a=g.name(), b=g.name()) + "\n" for l in SHAPES[sh])
+                body = f"    {en} {v};\n    if ({v} {op} {ens[0][0]}) {{\n{arm(a)}    }}\n"
+                if b != "empty":
+                    body += f"    else {{\n{arm(b)}    }}\n"
+                body += f"    u16 {g.name()};\n"
+                kind = "smsg" if idx % 2 else "cmsg"
+                name = f"{kind.upper()}_VERIF_{g.name('').upper()}"
+                g.out.append(f"{kind} {name} = 0x{0x0C00 + idx:04X} {{\n{body}}} {{\n    versions = \"1.12\";\n}}\n")
+                text += g.out
+                msgs.append((name, kind, 0x0C00 + idx))
+                idx += 1
+    return "\n".join(text), msgs
+
+
 def generate(rng, count, avoid=()):
     """-> (wowm text, [(message name, kind, opcode)]); `avoid`: feature combinations not to generate (known findings are probed separately)"""
     text, msgs = [], []
